@@ -85,8 +85,20 @@ def child_main(args) -> int:
         import traceback
 
         status = "crash: " + repr(e) + "\n" + traceback.format_exc(limit=12)
+    # listed findings are only counted per key here, so that they can never crowd an unlisted violation out of
+    # the (bounded) list of records a shard hands to the parent
+    found, _ = load_findings(args.prop)
+    known_hits: Counter = Counter()
+    keep = []
+    for v in kernel.LOG.violations:
+        if v["property"] == args.prop and v.get("mech") in found:
+            known_hits[v["mech"]] += 1
+        else:
+            keep.append(v)
+    kernel.LOG.violations[:] = keep
     out = {
         "status": status,
+        "known_hits": dict(known_hits),
         "evaluations": ctx.evaluations,
         "nontrivial": sorted(ctx.nontrivial),
         "samples": ctx.samples,
@@ -191,12 +203,14 @@ def run_parent(args) -> int:
     samples, violations, merr = [], [], []
     extras: dict = {}
     nviol = 0
+    shard_known: Counter = Counter()
     for r in results:
         nontrivial.update(r["nontrivial"])
         counters.update(r["counters"])
         samples.extend(r["samples"][:2])
         violations.extend(r["violations"])
         nviol += r["n_violations"]
+        shard_known.update(r.get("known_hits", {}))
         merr.extend(r["monitor_errors"])
         for k, v in r["extras"].items():
             if isinstance(v, (int, float)):
@@ -211,7 +225,7 @@ def run_parent(args) -> int:
                 extras[k] = v
 
     found, fixed = load_findings(prop)
-    known_hits: Counter = Counter()
+    known_hits: Counter = Counter(shard_known)
     unknown = []
     for v in violations:
         if v["property"] != prop:
